@@ -65,6 +65,29 @@ def _unknown_obj(tag, payload):
     return g + struct.pack("<Q", 24 + len(payload)) + payload
 
 
+def asf_video_stream(d):
+    """a second Stream Properties Object of a NON-audio stream type (video), cloned from the audio one: a header object
+    mutagen does not interpret and must keep verbatim"""
+    G_SP = bytes.fromhex("9107DCB7B7A9CF118EE600C00C205365")
+    G_VIDEO = bytes.fromhex("C0EF19BC4D5BCF11A8FD00805F5C442B")
+    size, cnt = struct.unpack("<QL", d[16:28])
+    p = 30
+    while p < size:
+        g = d[p:p + 16]
+        n = struct.unpack("<Q", d[p + 16:p + 24])[0]
+        if n < 24:
+            return None
+        if g == G_SP and n >= 24 + 54:
+            obj = bytearray(d[p:p + n])
+            obj[24:40] = G_VIDEO
+            obj[24 + 48] = (obj[24 + 48] & 0x80) | 2        # stream number 2
+            for i in range(24 + 54, len(obj)):
+                obj[i] = (obj[i] ^ 0x5A) & 0xFF             # type-specific data the audio parser must not be fed
+            return asf_top_insert(d, bytes(obj))
+        p += n
+    return None
+
+
 def iff_move_id3(d, kind, tagbytes, odd=True):
     """(re)place the ID3 chunk right after the first chunk, with an odd payload size"""
     big = kind in ("aiff", "dff")
@@ -104,8 +127,10 @@ def simple_id3(title=b"SynthTitle", pad=33):
 
 def ape_tag(items, header=True, version=2000):
     body = b""
-    for k, v in items:
-        body += struct.pack("<II", len(v), 0) + k + b"\x00" + v
+    for it in items:
+        k, v = it[0], it[1]
+        kind = it[2] if len(it) > 2 else 0          # 0 text, 1 binary, 2 external (locator)
+        body += struct.pack("<II", len(v), kind << 1) + k + b"\x00" + v
     size = len(body) + 32
     fl_footer = (1 << 31) if header else 0
     foot = b"APETAGEX" + struct.pack("<IIII", version, size, len(items), fl_footer) + b"\x00" * 8
@@ -416,13 +441,17 @@ def extra_samples(kind, base):
                 x = asf_top_insert(x, _unknown_obj(b"topempty", b""))
                 x = asf_top_insert(x, _unknown_obj(b"topbytes", b"unknown top-level payload"))
                 out.append(("synth-unknown-objects+" + name0, x))
+            x = asf_video_stream(d0)
+            if x:
+                out.append(("synth-video-stream+" + name0, x))
         elif kind.name in ("AIFF", "WAVE"):
             fam = kind.family
             out.append(("synth-id3-middle-odd+" + name0, iff_move_id3(d0, fam, simple_id3(pad=32), odd=True)))
             out.append(("synth-id3-middle-even+" + name0, iff_move_id3(d0, fam, simple_id3(pad=33), odd=False)))
         elif kind.style == "ape" and kind.name in ("Musepack", "WavPack", "APEv2", "MonkeysAudio"):
             body = ape_strip(d0)
-            items = [(b"Title", b"Synth"), (b"Artist", b"Someone")]
+            items = [(b"Title", b"Synth"), (b"Artist", b"Someone"), (b"File", b"http://example.org/a.flac", 2),
+                     (b"Cover Art (Front)", b"c.png\x00\x89PNG", 1), (b"Related", b"file:///x", 2)]
             out.append(("synth-ape-headerless+" + name0, body + ape_tag(items, header=False, version=1000)))
             out.append(("synth-ape+id3v1+" + name0, body + ape_tag(items) + id3v1()))
         elif kind.name == "FLAC":
